@@ -1,64 +1,21 @@
 (** Findings for C03 (compiled separately; never gates a verdict).
 
-    [launch_forward_refuted]: for an object at infinity the rays are launched from the plane
-    z = positions[1] - (EPD - min z); when the paraxial entrance pupil lies to the LEFT of that plane
-    (offset + EPL < 0) the direction handed to the trace points backwards (N < 0), so the ray does not travel
-    at the field angle towards the lens and the trace returns NaN.  Witness: surfaces at z = 0, 5, stop at
-    z = 100 imaged to EPL = -100 by an f = 50 lens, EPD = 10, field 5 deg.  Replay on /repo:
-    tools/props/C03.py::BACKWARDS_REPLAY (singlet R = +-50, stop 95 behind it): generate_rays(0, 1, 0, 0.5) has N < 0.
+    The three refutations recorded here on 2026-09-30 were repaired in /repo and are no longer provable
+    (the regenerated kernels changed), so the _refuted theorems are gone; the positive statements are now
+    theorems of Props/C03.v and the former witnesses are Examples of Lemmas/L_C03_examples.v:
 
-    [telecentric_na_refuted]: in telecentric object space the marginal ray is launched with sin(theta) = NA,
-    whatever the object-space index n0; the stated numerical aperture is n0 sin(theta) (the convention of
-    Paraxial.EPD), so for n0 <> 1 the launched cone has NA n0 times too large.  Replay: TELE_NA_REPLAY.
-
-    [objectNA_infinite_not_rejected]: the cell (infinite object, angle fields, objectNA) returns rays although
-    an object-space NA has no meaning for an object at infinity (Paraxial.EPD is infinite there and the
-    implementation's rays are NaN). *)
-From Coq Require Import Reals Lra ZArith List Bool String.
-From OV Require Import Ops OpsC03 RInst Gen.Standard Gen.RayGen Spec.S_C03 Lemmas.L_C03_launch.
-Import ListNotations.
+    - launch_forward_refuted (infinite object launched backwards when the entrance pupil lies left of the launch
+      plane): fixed by 45f857e; now C03_launch_infinite_angle proves 0 < N for every EPD > 0, and
+      ex_pupil_left_of_lens replays the old witness (EPL = -100, surfaces at 0, 5, 100).
+    - telecentric_na_refuted (sin(theta) = NA whatever the object-space index): fixed by 105641c; now
+      C03_launch_telecentric proves n0 sin(theta) = NA, ex_telecentric replays n0 = 4/3, NA = 1/10.
+    - objectNA_infinite_not_rejected: fixed by 70bd414; the cell is the sixth rule of Spec.S_C03.rejected and part
+      of C03_rejection_table.
+    tools/props/C03.py::REGRESSION_CASES replays the three prescriptions on the implementation on every run. *)
+From Coq Require Import Reals Bool String.
+From OV Require Import Spec.S_C03 Lemmas.L_C03_examples.
 Local Open Scope string_scope.
-Local Open Scope R_scope.
 
-Definition f_pos : list R := [0; 0; 5; 100; 120].
-
-Lemma f_offset : offset 10 f_pos = 10.
-Proof.
-  unfold offset, k_rg_z_offset, f_pos, min_list, sliceZ. cbn. rops.
-  change (Pos.to_nat 3) with 3%nat. change (Pos.to_nat 1) with 1%nat. cbn [firstn skipn fold_left].
-  assert (E : Rltb 5 0 = false) by (apply Rltb_false; lra).
-  assert (E2 : Rltb 100 0 = false) by (apply Rltb_false; lra). rewrite E, E2. ring.
-Qed.
-
-Theorem launch_forward_refuted :
-  exists Hy Px Py w mf EPL EPD pos r,
-    k_rg_generate ROps 0 Hy Px Py w 0 0 mf true "angle" false EPL EPD pos 0 0 0 "EPD" EPD "ignore" false = Some r /\
-    getZ (O := ROps) pos 1 = 0 /\ r_N r < 0.
-Proof.
-  exists 1, 0, (1/2), (55/100), 5, (-100), 10, f_pos. eexists. split; [reflexivity|]. split; [reflexivity|].
-  match goal with |- r_N ?r < 0 =>
-    pose proof (launch_infinite_angle 0 1 0 (1/2) (55/100) 0 0 5 (-100) 10 0 0 0 10 f_pos "EPD" "ignore" false r eq_refl eq_refl) as H end.
-  rewrite f_offset in H. destruct (H ltac:(lra)) as (_ & _ & _ & _ & _ & Hneg). apply Hneg. lra.
-Qed.
-Print Assumptions launch_forward_refuted.
-
-(** sin(theta) of the launched marginal ray equals the NA value for every object-space index: with n0 = 4/3 and
-    NA = 1/10 the cone that should have sin(theta) = NA / n0 = 3/40 has sin(theta) = 1/10 *)
-Theorem telecentric_na_refuted :
-  exists (n0 NA : R) r,
-    k_rg_generate ROps 0 0 0 1 (55/100) 0 0 4 false "object_height" true 0 0 [-100; 0; 50] 0 0 (-100) "objectNA" NA "ignore" false = Some r /\
-    1 < n0 /\ r_M r = NA /\ r_M r <> NA / n0.
-Proof.
-  exists (4/3), (1/10). eexists. split; [reflexivity|]. split; [lra|].
-  match goal with |- r_M ?r = _ /\ _ =>
-    pose proof (launch_telecentric 0 0 0 1 (55/100) 0 0 4 0 0 0 0 (-100) (1/10) [-100; 0; 50] "ignore" false r eq_refl ltac:(lra)) as H end.
-  destruct H as (_ & _ & _ & _ & _ & _ & _ & _ & Hm & _). destruct (Hm eq_refl eq_refl eq_refl) as [_ HM].
-  rewrite HM. split; [reflexivity|lra].
-Qed.
-Print Assumptions telecentric_na_refuted.
-
-(** the cell (infinite, angle, not telecentric, objectNA) is not rejected by the generator, for any inputs *)
-Theorem objectNA_infinite_not_rejected :
-  rejected true "angle" false "objectNA" = false.
+Theorem former_cell_now_rejected : rejected true "angle" false "objectNA" = true.
 Proof. reflexivity. Qed.
-Print Assumptions objectNA_infinite_not_rejected.
+Print Assumptions former_cell_now_rejected.
